@@ -124,6 +124,9 @@ impl C01 {
         obs.add("recursive_defs", case.stats.recursive_defs as u64);
         obs.add("locals", case.stats.locals as u64);
         obs.add("locals_in_loops", case.stats.loop_locals as u64);
+        obs.add("var_redeclarations", case.stats.var_redeclarations as u64);
+        obs.add("local_redeclarations", case.stats.local_redeclarations as u64);
+        obs.add("case_without_default_code", case.stats.case_no_default as u64);
         obs.maxi("max_call_depth", reference.max_call_depth as u64);
         match note {
             "unspecified" => {
